@@ -57,7 +57,7 @@ enum
 const VhKindSpec kKinds[K_COUNT] = {
     { "RUN", 8, 255, 65535, 65535, 65535 }, { "STREAM", 3, 255, 0, 0, 0 },      { "CAM", 5, 255, 65535, 65535, 65535 },
     { "PACE", 3, 255, 65535, 65535, 0 },    { "AVG", 2, 255, 255, 0, 0 },       { "DELAY", 2, 255, 255, 255, 0 },
-    { "RING", 2, 255, 255, 0, 0 },          { "FAULT", 2, 255, 255, 1, 0 },     { "CONFIGURE", 3, 0, 0, 0, 0 },
+    { "RING", 2, 255, 255, 0, 0 },          { "FAULT", 2, 255, 255, 1, 0 },     { "CONFIGURE", 3, 3, 0, 0, 0 },
     { "START", 4, 0, 0, 0, 0 },             { "STOP_DONE", 4, 0, 0, 0, 0 },     { "STOP_NOW", 2, 0, 0, 0, 0 },
     { "ABORT", 3, 0, 0, 0, 0 },             { "ABORT_OTHER", 2, 255, 0, 0, 0 }, { "TRIGGER", 3, 1, 0, 0, 0 },
     { "MAP", 5, 1, 0, 0, 0 },               { "UNMAP", 5, 1, 255, 0, 0 },       { "SLEEP", 3, 255, 0, 0, 0 },
@@ -225,6 +225,7 @@ struct Ctx
     bool abort_other_requested = false;
     bool aborted_current = false;
     bool mon_disabled = false;
+    bool tier_b = false; // a configure-while-running happened in this case
     bool disrupted = false; // a refused start-while-running stopped the cameras of the running acquisition
     int started_acqs = 0;
     bool prev_enabled[2] = { false, false };
@@ -787,9 +788,9 @@ finish_acquisition(Ctx& x, bool by_abort, const char* how)
         a.ended_by_abort = by_abort;
         bool fault = a.cfg.fault_site != 0;
         if (a.cam && !x.c.ended && a.cam->started && a.cam->run == a.cam_run)
-            x.c.fail_soft(fault ? "C09" : by_abort ? "C07" : "C08", "camera-not-stopped", how, "stream %d: the camera is still started after %s returned", a.stream, how);
+            x.c.fail_soft(x.tier_b ? "C08" : fault ? "C09" : by_abort ? "C07" : "C08", x.tier_b ? "lifecycle" : "camera-not-stopped", x.tier_b ? vmock::hub.context : how, "stream %d: the camera is still started after %s returned", a.stream, how);
         if (a.store && !x.c.ended && a.store->started && a.store->run == a.store_run)
-            x.c.fail_soft(fault ? "C09" : by_abort ? "C07" : "C08", "storage-not-stopped", how, "stream %d: the storage device is still started after %s returned", a.stream, how);
+            x.c.fail_soft(x.tier_b ? "C08" : fault ? "C09" : by_abort ? "C07" : "C08", x.tier_b ? "lifecycle" : "storage-not-stopped", x.tier_b ? vmock::hub.context : how, "stream %d: the storage device is still started after %s returned", a.stream, how);
         if (x.c.ended)
             break;
         if (fault || a.start_failed) {
@@ -1296,8 +1297,23 @@ client_main(void*)
         }
         switch (op.kind) {
             case K_CONFIGURE:
-                if (!x.running) // tier A: configure only while not running
+                if (!x.running)
                     do_configure(x, op.cfg);
+                else if ((op.t.a & 1) && (!vh_focus || !*vh_focus || !strcmp(vh_focus, "C08")) && !x.disrupted && x.other_done && !x.aborted_current) {
+                    // tier B ("in any order"): configure while an acquisition is running.  Only in runs
+                    // made for C08; every life-cycle breach observed from here on carries the context
+                    // "@configure-while-running" in its signature (see known_findings.txt).
+                    {
+                        bool sw = false;
+                        for (int s2 = 0; s2 < 2; ++s2)
+                            if (op.cfg[s2].enabled != x.applied[s2].enabled || (op.cfg[s2].enabled && (op.cfg[s2].cam != x.applied[s2].cam || op.cfg[s2].store != x.applied[s2].store)))
+                                sw = true;
+                        vmock::hub.context = sw ? "configure-while-running:other-devices" : "configure-while-running:same-devices";
+                    }
+                    x.tier_b = true;
+                    do_configure(x, op.cfg);
+                    x.disrupted = true;
+                }
                 break;
             case K_START:
                 if (!x.configured && !x.running)
@@ -1445,6 +1461,7 @@ vh_run(const VhTok* tape, size_t n, VhReport* rep)
     x.c.begin(rep, &kSpec);
     vsim::reset();
     vmock::hub.reset();
+    vmock::hub.context = "";
     vmock::hub.c = &x.c;
     vmock::on_append = on_append_hook;
     logger_set_reporter(reporter);
